@@ -321,6 +321,18 @@ class Analysis:
                 for a in n.args:
                     if isinstance(a, ast.Starred):
                         callees.add("<starred-call>")
+        # a method call whose receiver could not be typed (e.g. through a local
+        # alias of an attribute) is over-approximated by every method of that
+        # name in the package; only when there is none does it stay unknown
+        # (unknown callees count as mode dependent in Proofs/CacheSpec.v)
+        for c in sorted(callees):
+            if c.startswith("<method>"):
+                meth = c[len("<method>"):]
+                cands = [self.fid(tm, q) for tm, mm in self.mods.items() if tm not in self.blind
+                         for q in mm.funcs if "." in q and q.rsplit(".", 1)[1] == meth]
+                if cands:
+                    callees.discard(c)
+                    callees.update(cands)
         return sorted(attrs), sorted(callees)
 
     # -------------------------------------------------------------- cached
